@@ -72,3 +72,34 @@ fn cancel_from_an_earlier_idle() {
     el.dispatch(Duration::ZERO, &mut log).unwrap();
     assert_eq!(log, vec!["first"], "an idle cancelled before it ran never runs");
 }
+
+#[test]
+fn idles_wait_for_a_dispatch_that_returns_ok() {
+    use calloop::{EventSource, Poll, PostAction, Readiness, Token, TokenFactory};
+    use calloop::ping::PingSource;
+    struct Failing(PingSource, std::rc::Rc<std::cell::Cell<bool>>);
+    impl EventSource for Failing {
+        type Event = (); type Metadata = (); type Ret = ();
+        type Error = Box<dyn std::error::Error + Sync + Send>;
+        fn process_events<F>(&mut self, r: Readiness, t: Token, cb: F) -> Result<PostAction, Self::Error> where F: FnMut((), &mut ()) {
+            self.0.process_events(r, t, cb)?;
+            if self.1.get() { Err("failed".into()) } else { Ok(PostAction::Continue) }
+        }
+        fn register(&mut self, p: &mut Poll, f: &mut TokenFactory) -> calloop::Result<()> { self.0.register(p, f) }
+        fn reregister(&mut self, p: &mut Poll, f: &mut TokenFactory) -> calloop::Result<()> { self.0.reregister(p, f) }
+        fn unregister(&mut self, p: &mut Poll) -> calloop::Result<()> { self.0.unregister(p) }
+    }
+    let mut el: EventLoop<Log> = EventLoop::try_new().unwrap();
+    let h = el.handle();
+    let fail = std::rc::Rc::new(std::cell::Cell::new(true));
+    let (p, s) = make_ping().unwrap();
+    h.insert_source(Failing(s, fail.clone()), |_, _, log: &mut Log| log.push("source")).unwrap();
+    h.insert_idle(|log: &mut Log| log.push("idle"));
+    p.ping();
+    let mut log = Log::new();
+    assert!(el.dispatch(Duration::ZERO, &mut log).is_err());
+    assert_eq!(log, vec!["source"], "an idle ran in a dispatch that returned an error");
+    fail.set(false);
+    el.dispatch(Duration::ZERO, &mut log).unwrap();
+    assert_eq!(log, vec!["source", "idle"], "the idle runs after the events of the first dispatch that returns Ok");
+}
